@@ -1490,6 +1490,9 @@ class Interp:
         st.frames.pop()
         if fr.tag is not None:
             st.events.append({"kind": "tagged_return", "tag": fr.tag, "fn": fr.fn["path"], "value": rv, "facts_len": len(st.pc.log)})
+        tr = self.opts.get("trace_returns")
+        if tr and fr.fn["path"] in tr:
+            st.events.append({"kind": "fn_return", "fn": fr.fn["path"], "value": rv})
         if fr.on_return is not None:
             return fr.on_return(self, st, rv)
         st.retval = rv
